@@ -22,25 +22,40 @@ abbrev SSet := Std.HashSet State
 counts it as not validated, never as accepted). -/
 def cap : Nat := 40000
 
+/-- Driver-side reduction (on by default, `reset … reduce=0` switches it off): once a forwarder has
+left its loop (`pc` ∈ exiting, wantLock, done) the contents of its buffer, its hand and the ghost
+`missed` flag can never influence an observable event again (nothing is delivered any more; a
+Broadcast reaching that subscriber can always pass after at most the internal step that closes the
+exit channel).  States that differ only there are merged; this keeps the state set small when
+Broadcasts race with a leaving subscriber (push-or-skip is a coin toss per value).  The harness
+cross-checks reduced against unreduced verdicts on the traces where the unreduced set fits. -/
+def normSub (u : Sub) : Sub :=
+  match u.pc with
+  | .exiting | .wantLock | .done => { u with buf := [], hand := none, missed := false }
+  | _ => u
+
+def norm (reduce : Bool) (s : State) : State :=
+  if reduce then { s with subs := s.subs.map normSub } else s
+
 /-- τ-closure by worklist. `fuel` bounds the number of expansions (never reached in practice;
 reported as an error if it is). -/
-partial def closure (v : Variant) (todo : List State) (seen : SSet) : SSet :=
+partial def closure (v : Variant) (reduce : Bool) (todo : List State) (seen : SSet) : SSet :=
   match todo with
   | [] => seen
   | s :: rest =>
     if seen.size > cap then seen else
-    let succs := (taus v s).filterMap (step v s)
+    let succs := ((taus v s).filterMap (step v s)).map (norm reduce)
     let (todo', seen') := succs.foldl (fun (acc : List State × SSet) s' =>
       if acc.2.contains s' then acc else (s' :: acc.1, acc.2.insert s')) (rest, seen)
-    closure v todo' seen'
+    closure v reduce todo' seen'
 
-def closeSet (v : Variant) (xs : List State) : SSet :=
-  let seen : SSet := xs.foldl (fun acc s => acc.insert s) {}
-  closure v seen.toList seen
+def closeSet (v : Variant) (reduce : Bool) (xs : List State) : SSet :=
+  let seen : SSet := xs.foldl (fun acc s => acc.insert (norm reduce s)) {}
+  closure v reduce seen.toList seen
 
-def applyObs (v : Variant) (cur : SSet) (o : Obs) : SSet :=
+def applyObs (v : Variant) (reduce : Bool) (cur : SSet) (o : Obs) : SSet :=
   let nexts := cur.toList.flatMap (fun s => (obsLabels s o).filterMap (step v s))
-  closeSet v nexts
+  closeSet v reduce nexts
 
 def parseObs (l : Line) : Option Obs :=
   match l.get? "k" with
@@ -71,6 +86,7 @@ def pendingCall (s : State) : Bool :=
 
 structure DState where
   variant : Variant
+  reduce : Bool
   cur : SSet
   dead : Bool
 
@@ -79,14 +95,15 @@ def stepLine (d : DState) (line : String) : DState × String :=
   match l.op with
   | "reset" =>
     let v := if l.get? "variant" == some "orig" then Variant.orig else Variant.fixed
-    let cur := closeSet v [init]
-    ({ variant := v, cur, dead := false }, s!"ok n={cur.size}")
+    let reduce := l.get? "reduce" != some "0"
+    let cur := closeSet v reduce [init]
+    ({ variant := v, reduce, cur, dead := false }, s!"ok n={cur.size}")
   | "ev" =>
     match parseObs l with
     | none => (d, "error bad-event")
     | some o =>
       if d.dead then (d, "dead") else
-      let nxt := applyObs d.variant d.cur o
+      let nxt := applyObs d.variant d.reduce d.cur o
       if nxt.size > cap then
         ({ d with cur := nxt, dead := true }, s!"overflow n={nxt.size}")
       else if nxt.size == 0 then
@@ -102,7 +119,7 @@ def stepLine (d : DState) (line : String) : DState × String :=
   | _ => (d, "error unknown-op")
 
 def main (_args : List String) : IO UInt32 := do
-  let cur := closeSet .fixed [init]
-  Kit.lineLoop stepLine { variant := .fixed, cur, dead := false }
+  let cur := closeSet .fixed true [init]
+  Kit.lineLoop stepLine { variant := .fixed, reduce := true, cur, dead := false }
   return 0
 end Driver.C11
